@@ -374,7 +374,7 @@ def decode_uses(ctx, fn, instr_param=2):
                     uses.add(f + (kind,))
                 elif args[1][0] == "const":
                     uses.add(("const", args[1][1], False, kind))
-            elif c.endswith("wrapping_add") or c.endswith("wrapping_sub"):
+            elif re.search(r"<impl u16>::(wrapping|overflowing|checked|saturating)_(add|sub)$", c) or re.search(r"ops::arith::(Add|Sub)(<.*>)?>::(add|sub)$", c):
                 pe = ("call", c, tuple(args))
                 for a in args:
                     f = instr_field(a, is_instr)
@@ -393,15 +393,18 @@ def decode_uses(ctx, fn, instr_param=2):
                         uses.add(ff + ("cc-mask",))
                     else:
                         uses.add(ff + ("test",))
-    # ALU immediates that do not go through wrapping_add (AND uses `val1 & val2`)
+    # ALU immediates that do not go through wrapping_add (AND uses `val1 & val2`), and plain `+` on addresses
     for b, i, s in fn.assigns():
         r = s["r"]
-        if r["k"] == "bin" and r["op"] in ("BitAnd", "BitOr", "BitXor", "Add", "Sub"):
-            for o in (r["a"], r["b"]):
-                e = fn.expr(o, 12)
+        if r["k"] == "bin" and r["op"].replace("WithOverflow", "").replace("Unchecked", "") in ("BitAnd", "BitOr", "BitXor", "Add", "Sub"):
+            ops = [fn.expr(o, 12) for o in (r["a"], r["b"])]
+            for e in ops:
                 f = instr_field(e, is_instr)
                 if f and f[2]:
-                    uses.add(f + ("alu",))
+                    if r["op"].startswith(("Add", "Sub")):
+                        uses.add(f + (classify_add(("call", "+", tuple(ops)), f),))
+                    else:
+                        uses.add(f + ("alu",))
     # multi-definition locals (val2 in ADD/AND) hide an s_ext: pick it up from the call itself
     for b in sorted(fn.live_blocks()):
         t = fn.term(b)
